@@ -1248,8 +1248,14 @@ package grpctunnel
 // Watcher: ends the stream locally when its context ends.
 //@ func (*tunnelChannel).newStream$1
 //@   requires str != nil
+//@   ghost ctxErr error = nil
+//@   at call Err#1
+//@     assert[C07] @ownctx recv == str.ctx
+//@   at aftercall Err#1
+//@     ghost ctxErr = result
 //@   at call cancelStream#1
 //@     assert[C04,C07,C14] @afterdone isClosed(doneOf(str.ctx))
+//@     assert[C01,C04,C07] @ctxerr arg0 == str && arg1 == ctxErr
 //@   ensures[C04,C14] @onewait count("blocking") == 1 && count("call:cancelStream") == 1
 //@   locks str.ch.mu, str.metaMu
 //@   assigns *
